@@ -52,11 +52,11 @@ func (s *c09rShedder) Allow() (load.Promise, error) {
 func TestZsimC09Rpc(t *testing.T) {
 	zsim.Main(t, zsim.Harness{
 		Property: "C09", Name: "shedding-rpc",
-		Run:      c09RpcRun,
-		Horizon:  time.Hour,
-		Rule:     "1-4 client tasks call UnarySheddingInterceptor over a counting shedder that rejects on a drawn schedule; handlers return a value, an application error, context.DeadlineExceeded, or panic; oracle: rejected => ErrServiceOverloaded without running the handler; admitted => exactly one Pass/Fail with Fail iff DeadlineExceeded; in-flight back to zero; distinct = distinct event-log fingerprint",
-		Real:     []string{"rpc/internal/serverinterceptors.UnarySheddingInterceptor"},
-		Stub:     []string{"load.Shedder (counting)", "handlers", "clients"},
+		Run:     c09RpcRun,
+		Horizon: time.Hour,
+		Rule:    "1-4 client tasks call UnarySheddingInterceptor over a counting shedder that rejects on a drawn schedule; handlers return a value, an application error, context.DeadlineExceeded, or panic; oracle: rejected => ErrServiceOverloaded without running the handler; admitted => exactly one Pass/Fail with Fail iff DeadlineExceeded; in-flight back to zero; distinct = distinct event-log fingerprint",
+		Real:    []string{"rpc/internal/serverinterceptors.UnarySheddingInterceptor"},
+		Stub:    []string{"load.Shedder (counting)", "handlers", "clients"},
 	})
 }
 
